@@ -361,6 +361,79 @@ def _history_case(args):
     return cnt, out
 
 
+def _invalid_switch_case(args):
+    """NaN / inf among the *selected* events, with the "remove invalid
+    events" switch set but the filter not (re-)applied, or a feature with
+    invalid values attached after the filter was applied: statistics are
+    those of the finite selected values."""
+    seed, = args
+    import dclab
+    from dclab import statistics
+    out = []
+    cnt = 0
+    n = 10
+    x, y = base_data(n, seed + 9)
+    y = y.copy()
+    x = x.copy()
+    y[2], y[6], x[4] = np.nan, np.inf, np.nan
+    fam = [np.ones(n, bool), np.arange(n) % 2 == 0, np.arange(n) < 7]
+
+    def stats(ds, feats):
+        h, v = statistics.get_statistics(ds, features=feats)
+        return dict(zip(h, v))
+    for mi, m in enumerate(fam):
+        for how in ("switch-not-applied", "switch-applied",
+                    "temporary-after-apply"):
+            cnt += 1
+            case = {"kind": "invalid-switch", "seed": seed, "mask": mi,
+                    "how": how}
+            ds = _new(x, y)
+            ds.filter.manual[:] = m
+            feats = ["area_um", "deform"]
+            if how == "switch-applied":
+                ds.config["filtering"]["remove invalid events"] = True
+                ds.apply_filter()
+            else:
+                ds.apply_filter()
+                ds.config["filtering"]["remove invalid events"] = True
+            if how == "temporary-after-apply":
+                from dclab.definitions import feat_logic
+                if not feat_logic.feature_exists("vf_c12_tmp"):
+                    dclab.register_temporary_feature("vf_c12_tmp")
+                tmp = np.arange(n) * 1.5
+                tmp[[1, 4]] = np.nan
+                dclab.set_temporary_feature(ds, "vf_c12_tmp", tmp)
+                feats = feats + ["vf_c12_tmp"]
+            sel = np.array(ds.filter.all)
+            try:
+                got = stats(ds, feats)
+            except BaseException as e:
+                out.append(violation(
+                    "dclab.statistics:get_statistics", "exception", case,
+                    f"{type(e).__name__}: {e}", {"exc": type(e).__name__}))
+                continue
+            for f in feats:
+                arr = np.asarray(ds[f], float)[sel]
+                arr = arr[np.isfinite(arr)]
+                if not len(arr):
+                    continue
+                for name, fn in (("Mean", np.mean), ("Median", np.median),
+                                 ("SD", np.std)):
+                    key = [k for k in got if k.startswith(name + " ")
+                           and dclab.dfn.get_feature_label(f) in k]
+                    if not key:
+                        continue
+                    if not np.isclose(got[key[0]], fn(arr), rtol=1e-9,
+                                      atol=0):
+                        out.append(violation(
+                            "dclab.statistics:get_statistics",
+                            "wrong-statistic", case,
+                            f"{how}: {key[0]} = {got[key[0]]!r}, the finite "
+                            f"selected values give {fn(arr)!r}",
+                            {"stat": name, "how": how}))
+    return cnt, out
+
+
 def _bigtsv_case(args):
     """tsv export of a large filtered dataset (shared with C02)."""
     from .c02 import bigtsv_violations
@@ -432,6 +505,7 @@ def run(ctx):
     res = par.pmap(_mask_case, items)
     res += par.pmap(_quantile_case, [(ctx.seed,)])
     res += par.pmap(_bigtsv_case, [(ctx.scratch,)])
+    res += par.pmap(_invalid_switch_case, [(ctx.seed,)])
     res += par.pmap(_history_case, [(lo, lo + 3, ctx.seed)
                                     for lo in range(0, 36, 3)])
     viols = []
@@ -469,6 +543,9 @@ def replay(case, ctx):
             vs += _history_case((lo, lo + 3, case["seed"]))[1]
         return [v for v in vs if v["case"]["a"] == case["a"]
                 and v["case"]["b"] == case["b"]]
+    if case["kind"] == "invalid-switch":
+        return [v for v in _invalid_switch_case((case["seed"],))[1]
+                if v["case"] == case]
     if case["kind"] == "bigtsv":
         return [v for v in _bigtsv_case((ctx.scratch,))[1]
                 if v["case"] == case]
